@@ -2,6 +2,7 @@
   Proofs/C06.lean — proofs of the statements of Props/C06.lean.
 -/
 import TrashVerif.Proofs.C15
+import TrashVerif.Proofs.C16Eval
 namespace TrashVerif.Proofs.C06
 open TrashVerif Prog FS PutLemmas C04 C11
 
@@ -254,7 +255,9 @@ theorem em_restoreOne (cwd : CPath) (ow : Bool) (e : Entry) : Emits P (restoreOn
   · refine Emits.bind ?_ fun mk => ?_
     · split
       · exact Emits.pure _
-      · exact em_makedirs _ _ _
+      · split
+        · exact Emits.pure _
+        · exact em_makedirs _ _ _
     · split
       · exact Emits.pure _
       · refine Emits.read_bind fun fs2 => ?_
@@ -423,6 +426,123 @@ theorem overwrite_replaces_nondir_partial (fs : FS) (src dst info : CPath) (nsrc
   show (run noFaults (restoreCore (.ok src) (.ok (c ++ [x])) (.ok info)) { fs := fs }).2.fs.get (c ++ [x]) = some nsrc ∧ _
   rw [hrun, hmove]
   exact key _ rfl
+
+/-! ### --overwrite with a missing payload; a dangling link on the way to the destination -/
+
+/-- `shutil.move` of a source that is not there: `rename` fails (`ENOENT`, or whatever the oracle
+    injects), the fallback finds nothing to copy; nothing changes -/
+theorem move_missing (φ : Oracle) (src dst : CPath) (s : RunState) (h : s.fs.get src = none) :
+    (∃ er, (run φ (move src dst) s).1 = .error er) ∧ (run φ (move src dst) s).2.fs = s.fs := by
+  have hren : ∀ d, ∃ er, run φ (sys (.rename src d)) s = (.error er, C17.after s (.rename src d) (.error er) s.fs) := by
+    intro d
+    rcases C17.sys_cases φ (.rename src d) s with h1 | ⟨fs', _, ha, _⟩
+    · exact h1
+    · exfalso; simp [Call.apply, FS.rename, h] at ha
+  unfold move
+  rw [run_read_bind]
+  simp only []
+  generalize (if isdirC s.fs dst = true then (followC s.fs dst).getD dst ++ [src.getLast?.getD []] else dst) = realDst
+  split
+  · obtain ⟨er, he⟩ := hren dst
+    rw [he]; exact ⟨⟨er, rfl⟩, rfl⟩
+  · split
+    · exact ⟨⟨_, rfl⟩, rfl⟩
+    · rw [run_bind]
+      obtain ⟨er, he⟩ := hren realDst
+      rw [he]
+      simp only [run_read_bind, C17.after_fs, h]
+      exact ⟨⟨_, rfl⟩, rfl⟩
+
+theorem overwrite_keeps_destination_when_payload_missing (φ : Oracle) (cwd : CPath) (e : Entry) (s : RunState)
+    (hpar : pIsdir s.fs cwd (dirname e.loc) = true)
+    (hpay : pLexists s.fs cwd (pathOfBackupCopy e.info) = false) :
+    let r := run φ (restoreOne cwd true e) s
+    (∃ er, r.1 = .error er) ∧ r.2.fs = s.fs := by
+  intro r
+  have hr : r = run φ (restoreOne cwd true e) s := rfl
+  unfold restoreOne at hr
+  rw [run_read_bind, if_neg (by simp)] at hr
+  simp only [hpar, if_true] at hr
+  rw [run_bind] at hr
+  simp only [run_pure, run_read_bind, hpay, Bool.false_eq_true, false_and, and_false, if_false] at hr
+  rw [run_bind] at hr
+  simp only [run_pure, run_read_bind] at hr
+  rw [hr]
+  unfold pLexists lstat at hpay
+  cases hsrc : resolve s.fs cwd (pathOfBackupCopy e.info) with
+  | error er => exact ⟨⟨er, rfl⟩, rfl⟩
+  | ok p =>
+    rw [hsrc] at hpay
+    have hp : s.fs.get p = none := by simpa using hpay
+    cases hdst : resolve s.fs cwd e.loc with
+    | error er => exact ⟨⟨er, rfl⟩, rfl⟩
+    | ok d =>
+      obtain ⟨⟨er, h1⟩, h2⟩ := move_missing φ p d s hp
+      unfold restoreCore
+      simp only []
+      rw [run_bind]
+      generalize run φ (move p d) s = rm at h1 h2
+      obtain ⟨res, sm⟩ := rm
+      simp only at h1 h2
+      subst h1
+      exact ⟨⟨er, rfl⟩, h2⟩
+
+theorem restore_blocked_by_dangling_parent (φ : Oracle) (cwd : CPath) (overwrite : Bool) (e : Entry) (s : RunState)
+    (er : Errno)
+    (hnd : pIsdir s.fs cwd (dirname e.loc) = false)
+    (hd : danglingOnPath s.fs cwd (dirname e.loc) = some er)
+    (hfree : overwrite = false → pLexists s.fs cwd e.loc = false) :
+    let r := run φ (restoreOne cwd overwrite e) s
+    r.1 = .error er ∧ r.2.fs = s.fs ∧ r.2.trace = s.trace := by
+  intro r
+  have hr : r = run φ (restoreOne cwd overwrite e) s := rfl
+  unfold restoreOne at hr
+  have hc : ¬ ((¬ overwrite = true) ∧ pLexists s.fs cwd e.loc = true) := by
+    rintro ⟨h1, h2⟩
+    rw [hfree (by simpa using h1)] at h2
+    cases h2
+  rw [run_read_bind, if_neg hc] at hr
+  simp only [hnd, hd, Bool.false_eq_true, if_false] at hr
+  rw [run_bind] at hr
+  simp only [run_pure] at hr
+  rw [hr]
+  exact ⟨rfl, rfl, rfl⟩
+
+
+/-! non-vacuity: concrete worlds, evaluated through the twins of Proofs/C16Eval.lean -/
+
+namespace Ex
+open TrashVerif.Proofs.C16Eval
+
+def dN : Node := .dir 0o755 0
+/-- `/d/f` is there (say, restored a moment ago); the trash `/t` still lists `f.trashinfo`, but
+    `/t/files/f` is gone -/
+def fsGone : FS := FS.ofList [([], dN), ([b "d"], dN), ([b "d", b "f"], .file [1] 0o644 0), ([b "t"], dN),
+  ([b "t", b "files"], dN), ([b "t", b "info"], dN), ([b "t", b "info", b "f.trashinfo"], .file [2] 0o600 0)] [[]]
+def entF : Entry := { loc := b "/d/f", date := none, info := b "/t/info/f.trashinfo" }
+
+theorem hyps_gone : pIsdir fsGone [] (dirname entF.loc) = true ∧
+    pLexists fsGone [] (pathOfBackupCopy entF.info) = false ∧ pLexists fsGone [] entF.loc = true := by
+  rw [pIsdir_eq, pLexists_eq, pLexists_eq]; decide +kernel
+
+/-- `/d -> /nowhere` (missing); the trash `/t` holds `f` -/
+def fsLink : FS := FS.ofList [([], dN), ([b "d"], .link (b "/nowhere")), ([b "t"], dN),
+  ([b "t", b "files"], dN), ([b "t", b "files", b "f"], .file [1] 0o644 0), ([b "t", b "info"], dN),
+  ([b "t", b "info", b "f.trashinfo"], .file [2] 0o600 0)] [[]]
+/-- original location `/d/f`: the parent is the dangling link itself -/
+def entOn : Entry := { loc := b "/d/f", date := none, info := b "/t/info/f.trashinfo" }
+/-- original location `/d/sub/f`: the dangling link is a proper prefix of the parent -/
+def entThrough : Entry := { loc := b "/d/sub/f", date := none, info := b "/t/info/f.trashinfo" }
+
+theorem hyps_on : pIsdir fsLink [] (dirname entOn.loc) = false ∧
+    danglingOnPath fsLink [] (dirname entOn.loc) = some .EEXIST ∧ pLexists fsLink [] entOn.loc = false := by
+  rw [pIsdir_eq, danglingOnPath_eq, pLexists_eq]; decide +kernel
+
+theorem hyps_through : pIsdir fsLink [] (dirname entThrough.loc) = false ∧
+    danglingOnPath fsLink [] (dirname entThrough.loc) = some .ENOENT ∧ pLexists fsLink [] entThrough.loc = false := by
+  rw [pIsdir_eq, danglingOnPath_eq, pLexists_eq]; decide +kernel
+
+end Ex
 
 /-! ### the statements as first written are false -/
 
